@@ -589,3 +589,80 @@ def phase_flat(ctx, phase):
                                 note="a predicted counterexample that the real code handles correctly means the transcription (SqlFlat.tla) "
                                      "no longer matches the code: recorded as drift, not as a violation")
     return d
+
+
+def _cross_replay_join(seed, cex):
+    """replays a design-level join counterexample on Polars and SQLite; None if they agree"""
+    from . import compare as CMP
+    from .replay import Replayer, exc_class
+
+    rp = Replayer(seed)
+    R = rp.R
+    res = {}
+    moves = []
+    for bk in ("polars", "sqlite"):
+        sl, sr = rp.name_to_src[cex["left"]], rp.name_to_src[cex["right"]]
+        heap = [rp.B.table(bk, sl), rp.B.table(bk, sr)]
+        colmap = {}
+        for si, t in ((sl, heap[0]), (sr, heap[1])):
+            for ci, (n, _) in enumerate(rp.B.srcs[si]["cols"]):
+                colmap[S_col_id(si, ci)] = t[n]
+        cur = {1: 1, 2: 2}
+        nid = 100
+        moves = []
+        try:
+            for m in cex["pre"]:
+                side = m["i"]
+                mm = dict(m, i=cur[side])
+                t2 = R.apply_move(mm, heap, colmap)
+                heap.append(t2)
+                cur[side] = len(heap)
+                moves.append(mm)
+                if m["v"] == "mutate":
+                    colmap[nid] = t2[m["kv"][0]["n"]]
+                    nid += 1
+            jm = dict(v="join", i=cur[1], j=cur[2], how=cex["how"], suffix="_r",
+                      on=[dict(k="fn", op="eq", a=[dict(k="col", id=S_col_id(sl, 0)), dict(k="col", id=S_col_id(sr, 0))])])
+            moves.append(jm)
+            res[bk] = R.apply_move(jm, heap, colmap) >> R.export(R.pdt.Polars())
+        except Exception as e:  # noqa: BLE001
+            res[bk] = exc_class(e)
+    if isinstance(res["sqlite"], str):
+        return (None if res["sqlite"] in ("SubqueryError", "NotSupportedError") else f"SQLite raised {res['sqlite']}"), moves
+    if isinstance(res["polars"], str):
+        return f"Polars raised {res['polars']}", moves
+    dp, ds = res["polars"], res["sqlite"]
+    if list(dp.columns) != list(ds.columns):
+        return f"columns differ: {dp.columns} vs {ds.columns}", moves
+    r = CMP.compare_rows(CMP.frame_rows(dp), CMP.frame_rows(ds), None, None)
+    return (None if r is None else "Polars vs SQLite: " + r[1][:300]), moves
+
+
+def phase_flatjoin(ctx, phase):
+    """design level, joins: the merged SELECT of two accumulators vs the sequential meaning (MC_SqlFlatJoin.tla)"""
+    found = []
+    states = distinct = 0
+    for (ls, rs) in phase.get("pairs", [(1, 2), (6, 2)]):
+        d = tlc.prepare(f"{ctx.prop}-flatjoin-{ls}-{rs}-{os.getpid()}", ctx.seed)
+        tlc.write_model(d, "MC_SqlFlatJoin", dict(MaxPre=phase.get("pre", 2), LeftSrc=ls, RightSrc=rs), {}, view="View")
+        res = tlc.run(d, workers=8, timeout=phase.get("timeout", 600), on_json=found.append)
+        states += res["states"]
+        distinct += res["distinct"]
+        tlc.cleanup(d)
+    ctx.tlc_states += states
+    ctx.tlc_distinct += distinct
+    ctx.tlc_runs.append(dict(profile="sqlflat-join", states=states, distinct=distinct, counterexamples=len(found), mode="bfs, design level"))
+    confirmed = 0
+    for cex in found:
+        why, moves = _cross_replay_join(ctx.seed, cex)
+        if why is not None:
+            confirmed += 1
+            ctx.failures.append(dict(clause="rows", backend="sqlite", step=len(moves) - 1, tainted=False, src=[cex["left"], cex["right"]], srcidx=0,
+                                     detail="TLC (join accumulator): the catalogue accepts this join but the merged SELECT differs from the "
+                                            "sequential meaning; confirmed on the real code: " + why,
+                                     moves=moves, heap_obs=[], beh=cex))
+    ctx.extra["sqlflat_join"] = dict(counterexamples_predicted=len(found), confirmed_on_code=confirmed, drift=len(found) - confirmed)
+    ctx.behaviours += len(found)
+    ctx.replay_stats["steps_new"] = ctx.replay_stats.get("steps_new", 0) + sum(len(c["pre"]) + 1 for c in found)
+    ctx.replay_stats["nontrivial"] = ctx.replay_stats.get("nontrivial", 0) + len(found)
+    return None
